@@ -133,3 +133,32 @@ def term_dense(t, n):
     for x in mats:
         m = np.kron(m, x)
     return t.factor * m
+
+
+def apply_probe(mpo, qntot, seed=0):
+    """use a (swapped) operator: mpo.apply(mps), mpo @ mps, mpo.apply(mpo2), mpo.contract(mps) against dense algebra.
+    -> {"raised": text} or the four relative deviations"""
+    import traceback
+    from renormalizer.mps import Mps, Mpo
+    from renormalizer.utils import CompressConfig
+    out = {}
+    try:
+        np.random.seed(seed)
+        mps = Mps.random(mpo.model, qntot, 16, percent=1.0)
+        H = np.asarray(mpo.todense())
+        v = np.asarray(mps.todense()).ravel()
+        ref = H @ v
+        scale = max(1.0, float(np.abs(ref).max()))
+        out["apply"] = float(np.abs(np.asarray(mpo.apply(mps).todense()).ravel() - ref).max() / scale)
+        out["matmul"] = float(np.abs(np.asarray((mpo @ mps).todense()).ravel() - ref).max() / scale)
+        mpo2 = Mpo(mpo.model)
+        H2 = np.asarray(mpo2.todense())
+        out["apply_mpo"] = float(np.abs(np.asarray(mpo.apply(mpo2).todense()) - H @ H2).max() / max(1.0, float(np.abs(H @ H2).max())))
+        mps.compress_config = CompressConfig(threshold=1e-13)
+        if float(np.abs(ref).max()) < 1e-8:          # H|psi> = 0: compressing the zero state is not a question about the exchange
+            out["contract"] = 0.0
+            return out
+        out["contract"] = float(np.abs(np.asarray(mpo.contract(mps).todense()).ravel() - ref).max() / scale)
+    except Exception:
+        out["raised"] = traceback.format_exc()[-700:]
+    return out
